@@ -21,7 +21,7 @@ _SMALL = 512
 
 def _arr(a: np.ndarray):
     if a.dtype == object:
-        return ("ndo", a.shape, repr(a.tolist()))
+        return ("ndo", a.shape, _noaddr(repr(a.tolist())))
     b = a.tobytes()
     if len(b) > _SMALL:
         b = hashlib.blake2b(b, digest_size=12).digest()
